@@ -215,4 +215,31 @@ theorem value_revealed (H : List UInt8 → List UInt8) (hH : H32 H) (valueBits :
               refine ⟨w.rest, w.leaf.refs, _, refs', f1, hv.symm, by omega, c2, ?_, f3⟩
               exact (specPrune_hash0 H hH _ root [] hp c1).1
 
+
+/-! ### non-vacuity: the hypotheses are satisfiable by a non-trivial value (tests on literals, not proofs of the
+property) -/
+
+/-- a toy "hash" with 32-byte digests -/
+def toyH (x : List UInt8) : List UInt8 := (x ++ List.replicate 32 0).take 32
+example : H32 toyH := by intro x; simp [toyH]
+
+def leaf (bits : List Bool) : Cell := .mk tyOrdinary 0 bits []
+def fork (bits : List Bool) (l r : Cell) : Cell := .mk tyOrdinary 0 bits [l, r]
+/-- 8-bit keys, 8-bit values {0x00 ↦ 0x11, 0x01 ↦ 0x22, 0x80 ↦ 0x33}: root label empty, left subtree label 000000
+(hml_short), right leaf label 0000000 (hml_same) -/
+def exDict : Cell :=
+  fork [false, false]
+    (fork ([false] ++ [true,true,true,true,true,true,false] ++ List.replicate 6 false)
+      (leaf ([false, false] ++ Bits.natToBits 8 0x11))
+      (leaf ([false, false] ++ Bits.natToBits 8 0x22)))
+    (leaf ([true, true, false, true, true, true] ++ Bits.natToBits 8 0x33))
+
+example : plain exDict = true ∧ Spec.tooDeep exDict = false := by decide +kernel
+example : (dictLookup 10 8 exDict (Bits.natToBits 8 0x01)).map (·.1) = some (Bits.natToBits 8 0x22) := by decide +kernel
+example : (dictLookup 10 8 exDict (Bits.natToBits 8 0x80)).map (·.1) = some (Bits.natToBits 8 0x33) := by decide +kernel
+example : (dictLookup 10 8 exDict (Bits.natToBits 8 0x02)).isNone = true := by decide +kernel
+example : (proveKey toyH 8 exDict (Bits.natToBits 8 0x01)).isOk = true := by decide +kernel
+example : (proveKey toyH 8 exDict (Bits.natToBits 8 0x02)).isErr = true := by decide +kernel
+example : (createProof toyH (fun p => p == [0, 1] || p == [1]) exDict).isOk = true := by decide +kernel
+
 end Tongo.C18
